@@ -14,7 +14,7 @@ RULE = (
     "level raises directly, in a plain helper, or awaits a batch item whose flush raises in a backend function / a lazily computed future whose provider raises; any subset of levels first awaits a batch item and any subset "
     "catches and re-raises; run via fn() and fn.asynq().value() on both builds: the user frames of the escaping "
     "exception's traceback must be exactly lvl0..lvl(d-1) once each, in order, ending at the raising frame, and "
-    "format_asynq_stack() called inside the deepest task must list lvl0..lvl(d-1) outermost first (also for one function awaiting itself 1200, 12000 and - thorough - 40000 levels deep, beyond the recursion limit of 10000 the worker runs with); the same holds for EVERY observation when the failed task is observed three times, when a task swallowed the failure before the caller observes it, and when a task caught it in a synchronous re-entry and then let it propagate. "
+    "format_asynq_stack() called inside the deepest task must list lvl0..lvl(d-1) outermost first (also for a task started by one task, handed on un-awaited and awaited by another after its creator has finished, and for one function awaiting itself 1200, 12000 and - thorough - 40000 levels deep, beyond the recursion limit of 10000 the worker runs with); the same holds for EVERY observation when the failed task is observed three times, when a task swallowed the failure before the caller observes it, and when a task caught it in a synchronous re-entry and then let it propagate. "
     "(b) filter_traceback on seeded line lists assembled from foreign lines, complete boilerplate runs of the three "
     "patterns, partial runs of every length at every position incl. the very end, and shuffled boilerplate: equality "
     "with an independent reference rewriting, plus structure (non-marker output is an in-order subsequence of the "
@@ -193,6 +193,52 @@ def run_deepstack_unit(unit, res, c, progress):
             return 0
         v = yield lvl_deep.asynq(n - 1, fail)
         return v
+
+    # a task that is started by one task, handed on un-awaited and awaited by another after its creator finished
+    from .. import harness
+
+    hrt = harness.HarnessRT({"nodes": [], "kinds": 1})
+    stacks = {}
+
+    @A()
+    def ho_worker(tag):
+        yield harness.HItem(hrt, 0, "ho" + tag, ("ho", tag))
+        stacks[tag] = adebug.format_asynq_stack()
+        return tag
+
+    @A()
+    def ho_starter(tag):
+        yield None
+        return [ho_worker.asynq(tag)]  # started here, awaited by whoever gets the list
+
+    @A()
+    def ho_outer_starter(tag):
+        handle = yield ho_starter.asynq(tag)
+        return handle
+
+    @A()
+    def ho_consumer(tag, levels):
+        handle = yield (ho_outer_starter if levels == 2 else ho_starter).asynq(tag)
+        yield harness.HItem(hrt, 0, "hoc" + tag, ("hoc", tag))
+        v = yield handle[0]
+        return v
+
+    for levels in (1, 2):
+        tl.tick()
+        asynq.scheduler.reset()
+        hrt.attach()
+        try:
+            tag = "t%d" % levels
+            ho_consumer(tag, levels)
+        finally:
+            hrt.detach()
+        res["evaluations"] += 1
+        c["stacks_of_handed_over_tasks"] = c.get("stacks_of_handed_over_tasks", 0) + 1
+        want = ["ho_consumer"] + (["ho_outer_starter"] if levels == 2 else []) + ["ho_starter", "ho_worker"]
+        st_ = stacks.get(tag)
+        seen = [next((w for w in ("ho_consumer", "ho_outer_starter", "ho_starter", "ho_worker") if w in e), "?") for e in (st_ or [])]
+        if seen != want:
+            res["violations"].append({"oracle": "format_asynq_stack", "mechanism": "format_asynq_stack/creator-finished-before-the-task-ran", "detail": {"expected": want, "observed": seen}, "case": dict(unit)})
 
     for d in unit["depths"]:
         for fail in (False, True):
